@@ -81,6 +81,10 @@ func (x *XArray) Format(env envs.Environment) string {
 	if multiline {
 		for i, p := range parts {
 			p = utils.Indent(p, "  ")
+			if p == "" {
+				parts[i] = "-" // an item which formats as nothing, e.g. null
+				continue
+			}
 			parts[i] = "-" + p[1:]
 		}
 
